@@ -88,8 +88,10 @@ def classify_operand(a, state, ff, optypes, depth=0):
             k = getattr(v, 'pkey', None) or ''
             if path_from_param(v.value) == ('self', ['results']):
                 verdicts.append('CURRENT')
+            elif k in ('step.frm[0]', 'step.to[0]'):
+                verdicts.append('STALE')        # the object kept when the step was declared (until it is re-bound)
             elif k.startswith('step.frm[') or k.startswith('step.to['):
-                verdicts.append('STALE')
+                verdicts.append('CURRENT')      # a post-state appended by this step
             else:
                 todo.append(v.value)
         elif isinstance(v, ast.Attribute):
@@ -169,6 +171,48 @@ def _origin_key(operand, state, ff):
     return first if all(same_value(strip_refs(k), strip_refs(first)) for k in keys) else None
 
 
+STATE_ATTRS = ('contents', 'volume', 'wells', 'max_volume', 'instructions', 'max_volume_per_well')
+
+
+def stale_state_reads(ctx, rule):
+    """In bake, the state (contents / volume / wells ..) of an object may only be read from a current object - never
+    from the declaration-time object kept in the step record (its name and type may be read)."""
+    from ..flow import walk_no_sym
+    model = ctx.model
+    bake = model.func('Recipe.bake')
+    ff = ctx.flow('Recipe.bake')
+    branches = bake_branches(ctx)
+    optypes = operand_types(ctx)
+    n = 0
+    for op, (body, node) in sorted(branches.items()):
+        anns = optypes[op][0]
+        bad = []
+        reads = 0
+        for stmt in ast.walk(node):
+            if not isinstance(stmt, ast.stmt) or id(stmt) not in ff.pre or not _inside(stmt, node):
+                continue
+            if isinstance(stmt, (ast.If, ast.For, ast.While, ast.With, ast.Try, ast.FunctionDef)):
+                exprs = [getattr(stmt, 'test', None) or getattr(stmt, 'iter', None)]
+            else:
+                exprs = [x for x in ast.iter_child_nodes(stmt) if isinstance(x, ast.expr)]
+            st = ff.state_before(stmt)
+            for ex in exprs:
+                if ex is None:
+                    continue
+                for a in ast.walk(ex):
+                    if isinstance(a, ast.Attribute) and a.attr in STATE_ATTRS and isinstance(a.ctx, ast.Load):
+                        reads += 1
+                        base = ff.resolve(a.value, st)
+                        if classify_operand(base, st, ff, anns) == 'STALE':
+                            bad.append((stmt.lineno, unparse(a, 40)))
+        n += reads
+        ctx.ob(rule, bake, (bad[0][0] if bad else node.lineno), f"`{op}` branch: object state is read from current objects only",
+               not bad, fact=f"{reads} reads of contents/volume/wells/instructions" + (f"; stale: {bad[:2]}" if bad else ''),
+               why='an amount is computed from the object given when the step was declared, not from the state before '
+                   'this step: it ignores what earlier steps did', key=f"stale state read in {op}")
+    return n
+
+
 def _is_value_type_test(test, name):
     return isinstance(test, ast.Call) and getattr(test.func, 'id', '') == 'isinstance' and len(test.args) == 2 and \
         isinstance(test.args[0], ast.Name) and test.args[0].id == name and \
@@ -214,6 +258,7 @@ def run(ctx):
                    why=f"{stale} is the object given when the step was declared, not the state produced by the earlier "
                        f"steps: the step does not see their effects", key=f"stale operand in {op}")
     floor(ctx, 'operation calls in bake', nops, 8)
+    stale_state_reads(ctx, 'C08.R1')
     # ---------------------------------------------------------------- R2 write-back by name
     for op, (body, node) in sorted(branches.items()):
         stores = [s for s in ff.stores if s[2] and s[2].startswith('self.results[') and _inside(s[0], node)]
@@ -267,7 +312,7 @@ def run(ctx):
                    key=f"write-back name mismatch in {op}")
 
     # ---------------------------------------------------------------- R3 no effect before bake
-    eff = receiver_effects(model)
+    eff = {k: {a.rstrip('*') for a in v} for k, v in receiver_effects(model).items()}
     for op, (anns, ctor, fi) in sorted(optypes.items()):
         f2 = ctx.flow(fi.qualname)
         bad = []
